@@ -98,3 +98,21 @@ Theorem C15_driver_chunking_independent :
   hd SSuspend (snd (drive_flat xml_flavour true xml_table simd ent c1 sk fuel inj cs2 m [])).
 Proof. exact xml_drive_chunking_independent. Qed.
 Print Assumptions C15_driver_chunking_independent.
+
+(* ... and including the byte order mark: from a fresh machine (empty queue), whatever its discard_bom flag, as long as
+   neither chunking starts with a chunk that consists of U+FEFF alone (the first feed that sees input looks at the
+   first character of the stream only) *)
+Theorem C15_driver_chunking_independent_bom :
+  forall simd ent c1 sk fuel inj cs1 cs2 (m : mach xstate (list N)),
+  J xml_table m ->
+  mq m = [] ->
+  all_nonempty cs1 -> all_nonempty cs2 -> cs1 <> [] -> cs2 <> [] -> concat cs1 = concat cs2 ->
+  hd [] cs1 <> [BOM] -> hd [] cs2 <> [BOM] ->
+  all_done (tl (snd (drive_flat xml_flavour true xml_table simd ent c1 sk fuel inj cs1 m []))) ->
+  all_done (tl (snd (drive_flat xml_flavour true xml_table simd ent c1 sk fuel inj cs2 m []))) ->
+  fst (drive_flat xml_flavour true xml_table simd ent c1 sk fuel inj cs1 m []) =
+  fst (drive_flat xml_flavour true xml_table simd ent c1 sk fuel inj cs2 m []) /\
+  hd SSuspend (snd (drive_flat xml_flavour true xml_table simd ent c1 sk fuel inj cs1 m [])) =
+  hd SSuspend (snd (drive_flat xml_flavour true xml_table simd ent c1 sk fuel inj cs2 m [])).
+Proof. exact xml_drive_chunking_independent_bom. Qed.
+Print Assumptions C15_driver_chunking_independent_bom.
